@@ -240,7 +240,7 @@ func (v *Vue) evalSegment(ctx VueContext, seg pipeSegment, input any, isFirst, f
 		return v.evalFilter(ctx, seg, input, isFirst, fromInitial)
 	case segmentExpr:
 		// Use expr library with . representing the input value
-		env := ctx.stack.EnvMap()
+		env := v.exprEnv(ctx)
 		if input != nil {
 			env["."] = input
 		}
@@ -279,6 +279,29 @@ func (v *Vue) evalFilter(ctx VueContext, seg pipeSegment, input any, isFirst, fr
 		return nil, fmt.Errorf("%s(): %w", seg.name, err)
 	}
 	return result, nil
+}
+
+// exprEnv is the environment expressions are evaluated in: the merged variable
+// scopes plus the registered template functions (unless a variable of the same
+// name shadows one). A function is offered in a form the expression engine
+// can call with any arguments; the call goes through callFunc, so arguments are
+// converted and errors reported exactly as for a filter.
+func (v *Vue) exprEnv(ctx VueContext) map[string]any {
+	env := ctx.stack.EnvMap()
+	for name, fn := range v.funcMap {
+		if _, shadowed := env[name]; shadowed {
+			continue
+		}
+		name, fn := name, fn
+		env[name] = func(args ...any) (any, error) {
+			result, err := v.callFunc(&ctx, fn, args...)
+			if err != nil {
+				return nil, fmt.Errorf("%s(): %w", name, err)
+			}
+			return result, nil
+		}
+	}
+	return env
 }
 
 // resolveArgument resolves a single argument (either a variable reference or literal)
